@@ -82,17 +82,17 @@ Proof.
     destruct (o_kind o) eqn:K; try discriminate HR; cbn [is_reader wr_pc andb] in H; dmh; repeat split.
 Qed.
 
-Lemma mr_reader : forall k, lock_mode k = MR -> k <> KGCGone -> is_reader k = true.
+Lemma mr_reader : forall k, lock_mode k = MR -> k <> KGoneOld -> is_reader k = true.
 Proof. destruct k; cbn; congruence. Qed.
 
 Definition refusal (k : kind) (r : list Z) : Prop :=
   r = busy_result k \/ r = [c18_e_BadVersion; 0] \/ r = [c18_e_InvalidArgument].
 
 Definition entry_pc (k : kind) : pc :=
-  match k with KCreate => PCLookup | KPull => PPullLoop | KPack => PRmLookup | KScrub => PScrub | _ => PLookup end.
+  match k with KCreate => PCLookup | KPull => PPullLoop | KPack | KGCGone => PRmLookup | KScrub => PScrub | _ => PLookup end.
 
 Lemma step_start : forall V g o l inj g' p' l',
-    o_kind o <> KGCGone -> step V g o PStart l inj = Some (g', p', l') ->
+    o_kind o <> KGoneOld -> step V g o PStart l inj = Some (g', p', l') ->
     g' = g /\ ((p' = PLock /\ l' = l) \/ (p' = PDone /\ refusal (o_kind o) (l_res l'))).
 Proof.
   intros V g o l inj g' p' l' K H. unfold step in H. destruct (o_kind o) eqn:E; cbn in H; dmh; try congruence;
@@ -100,7 +100,7 @@ Proof.
 Qed.
 
 Lemma step_lock : forall V g o l inj g' p' l',
-    o_kind o <> KGCGone -> step V g o PLock l inj = Some (g', p', l') ->
+    o_kind o <> KGoneOld -> step V g o PLock l inj = Some (g', p', l') ->
     same_store g' g /\ ((p' = entry_pc (o_kind o) /\ l' = l) \/ (p' = PDone /\ l_res l' = busy_result (o_kind o))).
 Proof.
   intros V g o l inj g' p' l' K H. unfold step in H. destruct (o_kind o) eqn:E; cbn in H; dmh; try congruence;
@@ -113,7 +113,7 @@ Proof.
   intros V g o l inj g' p' l' H. unfold step in H. destruct (o_kind o) eqn:E; cbn in H; dmh; (split; [repeat split|]); auto.
 Qed.
 
-Lemma body_holding : forall k p, k <> KGCGone -> (body_pc p = true \/ p = PUnlock) -> holding k p = true.
+Lemma body_holding : forall k p, k <> KGoneOld -> (body_pc p = true \/ p = PUnlock) -> holding k p = true.
 Proof. intros k p K H. destruct H as [H|H]; [|subst p]; destruct k; try congruence; try destruct p; cbn in *; congruence. Qed.
 
 Lemma holding_pc : forall k p, holding k p = true -> body_pc p = true \/ p = PUnlock.
@@ -159,7 +159,7 @@ Record SInv (V : variant) (ops : list opd) (x0 : Z -> local) (s : sys) (ch : lis
   si_nodup : NoDup (map fst ch)
 }.
 
-Definition ok_op (o : opd) : Prop := o_kind o <> KGCGone.
+Definition ok_op (o : opd) : Prop := o_kind o <> KGoneOld.
 
 Lemma map_upd_op : forall (ths : list thread) i t p l,
     nth_error ths i = Some t -> map t_op (upd i {| t_op := t_op t; t_pc := p; t_loc := l |} ths) = map t_op ths.
